@@ -13,6 +13,7 @@ CONSTANTS
  ROOT = ROOT
  None = None
  Obj <- MCObj
+ ChildUid <- SeqChild
  Dev_FalsyParent = FALSE
  Dev_ParentSetFirst = FALSE
  Dev_RecurseDropsArch = FALSE
